@@ -102,7 +102,8 @@ Record api_case := {
   e_resolution : option (list (string * list opkg));         (* per architecture, install order; None = failed *)
   e_lock_runs : list uobs;                                   (* LockImageConfiguration, repeated *)
   e_relock : list (string * option (list (string * string))); (* each per-arch lock resolved again *)
-  e_index_relock : option (option (list (string * list (string * string))))  (* the shared lock, when nothing is missing *)
+  e_index_relock : option (option (list (string * list (string * string))));  (* the shared lock, when nothing is missing *)
+  e_universe : list (string * list cand)                     (* per architecture: every package of every repository *)
 }.
 
 Fixpoint insert_everywhere {A} (x : A) (l : list A) : list (list A) :=
@@ -156,12 +157,23 @@ Definition unpinned_tagged (ps : list opkg) (lockl : list string) : bool :=
 
 (* why a re-resolution may legitimately be expected to fail today: each
    alternative is one recorded finding's mechanism *)
-Definition relock_failure_tag (what : string) (ps : list opkg) (lockl : list string) : string :=
+(* outside the envelope of c09_fixpoint_partial: the exact entry of some member
+   admits another package of the universe (one that provides name=version) *)
+Definition same_cand (k : cand) (q : opkg) : bool :=
+  String.eqb (k_name k) (p_name (q_pkg q)) && String.eqb (k_version k) (p_version (q_pkg q)).
+Definition entry_admits_other (U : list cand) (ps : list opkg) : bool :=
+  existsb (fun q =>
+    let n := p_name (q_pkg q) in
+    existsb (fun k => negb (same_cand k q))
+            (filter_for (resolve_constraint (n ++ "=" ++ p_version (q_pkg q))) (cands_of U n))) ps.
+
+Definition relock_failure_tag (what : string) (U : list cand) (ps : list opkg) (lockl : list string) : string :=
   if unpinned_tagged ps lockl then "viol:fixpoint/unpinned-entry-for-package-from-tagged-repo"
   else if negb (closed_b ps) then "viol:fixpoint/origin-resolution-not-closed"
+  else if entry_admits_other U ps then "viol:fixpoint/entry-admits-other-package"
   else "viol:" ++ what.
 
-Definition judge_relock (res : list (string * list opkg)) (locks : bymap)
+Definition judge_relock (univ : list (string * list cand)) (res : list (string * list opkg)) (locks : bymap)
     (relock : list (string * option (list (string * string)))) : list string :=
   List.concat (List.map (fun ar =>
     let '(arch, r) := ar in
@@ -169,26 +181,33 @@ Definition judge_relock (res : list (string * list opkg)) (locks : bymap)
     | None => ["mismatch:relock-of-unknown-arch"]
     | Some ps =>
         match r with
-        | None => [relock_failure_tag "relock-fails" ps (pget arch locks)]
+        | None => [relock_failure_tag "relock-fails" (match alookup arch univ with Some u => u | None => [] end) ps (pget arch locks)]
         | Some l => if same_members_b l (nv_of ps) then []
-                    else [relock_failure_tag "relock-differs" ps (pget arch locks)]
+                    else [relock_failure_tag "relock-differs" (match alookup arch univ with Some u => u | None => [] end) ps (pget arch locks)]
         end
     end) relock).
 
-Definition judge_index_relock (res : list (string * list opkg)) (locks : bymap)
+Definition judge_index_relock (univ : list (string * list cand)) (res : list (string * list opkg)) (locks : bymap)
     (ir : option (option (list (string * list (string * string))))) : list string :=
   match ir with
   | None => []
   | Some None =>
       match res with
-      | (_, ps) :: _ => [relock_failure_tag "index-relock-fails" (List.concat (List.map snd res)) (pget unify_index_key locks)]
+      | (_, ps) :: _ =>
+          (* the failing architecture is not reported: classify on any of them *)
+          let tags := List.map (fun ap => relock_failure_tag "index-relock-fails"
+                                   (match alookup (fst ap) univ with Some u => u | None => [] end) (snd ap) (pget unify_index_key locks)) res in
+          match find (fun t => negb (String.eqb t "viol:index-relock-fails")) tags with
+          | Some t => [t]
+          | None => ["viol:index-relock-fails"]
+          end
       | [] => []
       end
   | Some (Some per) =>
       List.concat (List.map (fun al =>
         match alookup (fst al) res with
         | Some ps => if same_members_b (snd al) (nv_of ps) then []
-                     else [relock_failure_tag "index-relock-differs" ps (pget unify_index_key locks)]
+                     else [relock_failure_tag "index-relock-differs" (match alookup (fst al) univ with Some u => u | None => [] end) ps (pget unify_index_key locks)]
         | None => ["mismatch:index-relock-of-unknown-arch"]
         end) per)
   end.
@@ -207,8 +226,8 @@ Definition check_api (c : api_case) : list string :=
       match find (fun o => match o with UOk _ _ => true | _ => false end) (e_lock_runs c) with
       | Some (UOk bya mba as o) =>
           (if clean_originals_b (e_originals c) then judge_unify (e_originals c) inputs o else []) ++
-          judge_relock res bya (e_relock c) ++
-          judge_index_relock res bya (e_index_relock c)
+          judge_relock (e_universe c) res bya (e_relock c) ++
+          judge_index_relock (e_universe c) res bya (e_index_relock c)
       | _ => []
       end
   end.
@@ -289,7 +308,11 @@ Definition check_build (b : build_case) : list string :=
              | _ => true
              end) "mismatch:locked-install-order" ++
      (if negb (b_repo_changed b) && b_plain_ok b then
-        tag_if (negb (String.eqb (b_locked_manifest b) (b_plain_manifest b))) "viol:locked-image-differs-from-unlocked" ++
+        tag_if (negb (String.eqb (b_locked_manifest b) (b_plain_manifest b)))
+               (if same_members_b (b_locked_installed b) (b_plain_installed b) &&
+                   negb (list_eqb nv_eqb (b_locked_installed b) (b_plain_installed b))
+                then "viol:locked-image-differs/same-packages-other-install-order"
+                else "viol:locked-image-differs-from-unlocked") ++
         tag_if (negb (same_members_b (b_locked_installed b) (b_plain_installed b))) "viol:locked-build-installs-other-than-unlocked"
       else [])
    else []).
